@@ -53,6 +53,9 @@ def run(tier, seed):
         ('select ns-a', lambda: ids(sv.select('p|i', xdoc, namespaces={'p': 'urn:a'}))),
         ('select ns-b', lambda: ids(sv.select('p|i', xdoc, namespaces={'p': 'urn:b'}))),
         ('select ns-default', lambda: ids(sv.select('i', xdoc, namespaces={'': 'urn:b', 'q': 'urn:a'}))),
+        # deep nesting in both threads at once (anything that counts or stacks per process rather than per call)
+        ('compile nested-a', lambda: ir(sv.compile(':is(' * 150 + 'a' + ')' * 150))[-60:]),
+        ('compile nested-b', lambda: ir(sv.compile(':not(' * 130 + 'b' + ')' * 130))[-60:]),
         ('compile custom-x', lambda: ir(sv.compile(':--t', custom={':--t': ':--h.t', ':--h': 'h1'}))),
         ('compile custom-y', lambda: ir(sv.compile(':--t', custom={':--t': ':--h.t', ':--h': 'h2, h3'}))),
     ]
@@ -76,9 +79,9 @@ def run(tier, seed):
     pairs = [(a, b) for a in OPS for b in OPS]
     if tier == 'quick':
         pairs = [(a, b) for a, b in pairs if a[0].startswith('compile') or a[0].startswith('match')]
-        forced = [(a, b) for a, b in pairs if a is not b and (('ns-' in a[0] and 'ns-' in b[0]) or ('custom-' in a[0] and 'custom-' in b[0]))]
+        forced = [(a, b) for a, b in pairs if a is not b and (('ns-' in a[0] and 'ns-' in b[0]) or ('custom-' in a[0] and 'custom-' in b[0]) or ('nested-' in a[0] and 'nested-' in b[0]))]
         pairs = rnd.sample([pq for pq in pairs if pq[1][0] != 'flood of new names' and pq[0][0] != 'flood of new names'], 30) + \
-            rnd.sample(forced, min(12, len(forced)))
+            rnd.sample(forced, min(14, len(forced)))
         flood = next(o for o in OPS if o[0] == 'flood of new names')
         exhaustive = [(a, flood) for a in OPS if a[0] in ('select nth', 'compile plain', 'match detached 1')]
         pairs += exhaustive
